@@ -21,6 +21,7 @@ pub mod c18;
 #[cfg(feature = "bulk")]
 pub mod c19;
 pub mod serialchk;
+pub mod stale;
 
 #[derive(Clone, Debug)]
 pub struct Ctx {
@@ -62,7 +63,11 @@ impl Ctx {
 pub fn dispatch(name: &str, ctx: &Ctx) -> Option<Outcome> {
     crate::util::set_label(name);
     Some(match name {
-        "c01" => if ctx.args.str("part", "freerun") == "serial" { serialchk::run(ctx, "c01") } else { c01::run(ctx) },
+        "c01" => match ctx.args.str("part", "freerun").as_str() {
+            "serial" => serialchk::run(ctx, "c01"),
+            "stale" => stale::run(ctx),
+            _ => c01::run(ctx),
+        },
         "c11" => if ctx.args.str("part", "serial") == "hammer" { c11::run(ctx) } else { serialchk::run(ctx, "c11") },
         "c02" => c02::run(ctx),
         "c03" => c03::run(ctx),
